@@ -156,7 +156,7 @@ class Mon(Monitor):
         return tuple((r.kind, r.fires[0][1:3] if r.fires else None) for r in w.reqs if r.kind in PKT)
 
 
-CODES = ((0,), (1, 2), (0x80,), (0, 0x80, 2), ())
+CODES = ((0,), (1, 2), (0x80,), tuple([0, 1, 2, 0x80] * 32), (0, 0x80, 2), ())
 
 
 def scenarios(ctx):
